@@ -274,6 +274,8 @@ type fakeConn struct {
 
 	rbuf []byte
 	eof  bool
+	// threads that called Read (HandleRead callers that became a reader)
+	readCallers map[int]bool
 }
 
 func (f *fakeConn) Write(b []byte) (int, error) {
@@ -303,6 +305,10 @@ func (f *fakeConn) Write(b []byte) (int, error) {
 }
 
 func (f *fakeConn) Read(b []byte) (int, error) {
+	if f.readCallers == nil {
+		f.readCallers = map[int]bool{}
+	}
+	f.readCallers[vsched.Cur()] = true
 	vsched.Block("fake.read", func() bool { return len(f.rbuf) > 0 || f.eof || f.closed })
 	f.w.tick()
 	if f.closed {
